@@ -7,7 +7,14 @@ Oracle (independent of the Lean model): dense numpy — Toeplitz residual, sigma
 of the two estimators, numpy.roots stability certificate, exact recovery from the exact
 autocovariance of a drawn stable AR process, the spectrum formula on the returned grid, and the
 simulator's recursion on the returned arrays.
+
+Stability clause: proved for the computed-autocorrelation path (`arLD_stable_of_signal`: Toeplitz form
+= Gram form => positive definite => sigma_j > 0, |kappa_j| < 1 => roots inside the unit circle).  The
+ops `gram` (binary64), `gramq` and `ldq` (exact complex rationals) run the definitions those theorems
+are about: both sides of the Gram identity, and AR_est_LD in exact arithmetic with the truth value of
+every link of the chain; the oracle re-derives the Gram form in Fractions.
 """
+from fractions import Fraction
 import numpy as np
 from common import Case, Failure, clist, parse_clist, flist, parse_flist, call, close_vec
 
@@ -16,12 +23,13 @@ LEAN_TARGETS = ['Nitime.Props.C10']
 RULE = ('every routine is also run in call sequences on the same argument objects (>=3 evaluations in mixed order, results scribbled over, arrays refilled in place; C12: several live analyzers read in interleaved order); cases from one PRNG state: signals real / complex / strongly coloured (AR-filtered noise, pole radius to 0.97), '
         'N in 16..256 (quick) or ..4096 (thorough), orders 1..min(16,N/4); estimators LD and YW with computed and supplied '
         '(biased, unbiased, exact-AR) autocorrelation; AR_psd for sides x parity x real/complex stable coefficient sets; '
+        'Gram identity c^H toeplitz(autocorr(x)) c = (1/N) sum |c*x|^2 on real/complex/coloured signals x random, sparse, leading-zero and prediction-error filters (binary64) and on small-integer dyadic signals in exact rational arithmetic (also orders >= N); AR_est_LD vs the exact-rational run of the model with all links of the stability chain evaluated exactly; '
         'ar_generator with supplied noise and dropped transients (incl. fewer samples than coefficients); amplitude scales 1e-12..1e6; grids coarser than the order; distinct = distinct protocol line; '
         'ill-conditioned Toeplitz systems (cond > 1e5) are skipped and counted')
 ASSUMPTIONS = ['order >= 1 and at least order+1 autocorrelation lags are available (the code indexes rxx[1])',
                'every number the recursion divides by is non-zero (hypothesis DivisorsOK of the theorems); ill-conditioned cases skipped and counted',
                'R(0) is real (true for autocorr output; supplied sequences are generated with a real lag-0 term)',
-               'stability (roots inside the unit circle) is NOT proved: per-run numpy.roots certificate on every estimate from a biased autocorrelation',
+               'stability is PROVED for every non-zero signal and every order on the computed (biased) autocorrelation path over the complex numbers (arLD_stable_of_signal) and for supplied rxx under the hypothesis that toeplitz(rxx[:p+1]) is positive definite (arLD_stable_of_pd); NOT covered by proof: a supplied rxx that is not positive definite (e.g. the unbiased estimate: no stability claim is made or checked there) and rounding (Float vs the complex numbers) - the numpy.roots / sigma > 0 certificate still runs on the binary64 results of every estimate from a biased or exact autocorrelation',
                'sigma_v >= 0 in AR_psd (sqrt of a real number)']
 TRUSTED_EXTRA = [
     'Float (complex binary64) instance of the Scalar-polymorphic model approximates the ℂ instance the theorems are about (unproved; bounded by the 1e-9 comparison)',
@@ -30,6 +38,7 @@ TRUSTED_EXTRA = [
     'scipy.linalg.solve modelled by the contract IsSolution (T·a = y); the driver uses Gauss–Jordan elimination Mat.solveVec, whose correctness is not proved, only compared',
     'scipy.signal.freqz(b, a, worN=n, whole) modelled as the ratio of polynomials in exp(-1j·w_k), w_k = k·(π|2π)/n (scipy default include_nyquist=False)',
     'scipy.signal.lfilter modelled as the direct-form recursion lfilter1 with a[0] = 1',
+    'the exact instance CQ (complex rationals) of the Scalar class used by the ops gramq/ldq has placeholder sqrtRe/phasor (not rational operations; never called by those ops)',
 ]
 
 STATS = {'skipped_ill_conditioned': 0, 'cond_max_compared': 0.0}
@@ -102,6 +111,20 @@ KINDS = ['real', 'complex', 'coloured-real', 'coloured-complex']
 
 
 # ------------------------------------------------------------------ implementation adapter
+def impl_forms(ut, data, c, p):
+    """(c^H T c, (1/N) sum_t |(c * x)[t]|^2) with T = toeplitz(utils.autocorr(x)[:p+1]) built the way AR_est_YW
+    builds it (the autocorrelation sequence vanishes beyond lag N-1)"""
+    from scipy import linalg
+    N = len(data)
+    r = np.asarray(ut.autocorr(data), dtype=complex)[:p + 1]
+    r = np.r_[r, np.zeros(p + 1 - len(r), dtype=complex)]
+    T = linalg.toeplitz(r)
+    cc = np.r_[np.asarray(c, dtype=complex), np.zeros(p + 1, dtype=complex)][:p + 1]
+    form = np.vdot(cc, T.dot(cc))
+    y = np.convolve(cc, np.asarray(data, dtype=complex))
+    return complex(form), complex(np.sum(np.abs(y) ** 2) / N)
+
+
 def canon_est(res):
     a, s = res
     return 'ok %s %s' % (clist(np.asarray(a).reshape(-1)), clist([complex(s)]))
@@ -125,6 +148,17 @@ def run_impl(m):
         if not m['cplx']:
             data = data.real.copy()
         return call(lambda: 'ok ' + clist(ut.autocorr(data)[:m['nl']]))
+    if op in ('gram', 'gramq'):
+        data = np.array(parse_clist(m['data']))
+        c = np.array(parse_clist(m['c']))
+        if not m['cplx']:
+            data = data.real.copy()
+        return call(lambda: 'ok ' + clist(list(impl_forms(ut, data, c, m['order']))))
+    if op == 'ldq':
+        data = np.array(parse_clist(m['data']))
+        if not m['cplx']:
+            data = data.real.copy()
+        return call(lambda: (ar.AR_est_LD(data, m['order']), canon_est(ar.AR_est_LD(data, m['order'])))[1])
     if op == 'psd':
         ak = np.array(parse_clist(m['ak']))
         if not m['cplx']:
@@ -153,6 +187,12 @@ def line_of(m):
         return 'C10 %s %d %s' % (op, m['order'], m['data'])
     if op == 'autocorr':
         return 'C10 autocorr %d %s' % (m['nl'], m['data'])
+    if op == 'gram':
+        return 'C10 gram %d %s %s' % (m['order'], m['data'], m['c'])
+    if op == 'gramq':
+        return 'C10 gramq %d %d %s %s' % (m['order'], m['den'], m['xints'], m['cints'])
+    if op == 'ldq':
+        return 'C10 ldq %d %d %s' % (m['order'], m['den'], m['xints'])
     if op == 'psd':
         return 'C10 psd %d %d %s %s' % (1 if m['one'] else 0, m['nf'], clist([m['sigma']]), m['ak'])
     if op == 'gen':
@@ -195,6 +235,72 @@ def cmp_groups(kinds, rtol=1e-9):
     return f
 
 
+def parse_cq(s):
+    """'p/q,p/q,...' (interleaved re, im) -> list of (Fraction, Fraction)"""
+    if s == '-':
+        return []
+    t = [Fraction(u) for u in s.split(',')]
+    return list(zip(t[0::2], t[1::2]))
+
+
+def cmp_gram(scale, exact):
+    """impl = binary64 (form, gram) of the real code; model = the same two numbers from the model definitions.
+    exact (gramq): the model's two sides must be IDENTICAL rationals with zero imaginary part."""
+    def f(impl, model):
+        a, b = parse_groups(impl), parse_groups(model)
+        if a is None or b is None:
+            return impl == model
+        vi = parse_clist(a[0])
+        if exact:
+            q = parse_cq(b[0])
+            if len(q) != 2 or q[0] != q[1] or q[0][1] != 0 or q[0][0] < 0:
+                return False
+            vm = [complex(float(z[0]), float(z[1])) for z in q]
+        else:
+            vm = parse_clist(b[0])
+        fl = lambda zs: [t for z in zs for t in (z.real, z.imag)]
+        return len(vi) == 2 and len(vm) == 2 and close_vec(fl(vi), fl(vm), 0.0, 1e-9 * scale)
+    return f
+
+
+def cmp_ldq(scale_r0, cond):
+    """impl = AR_est_LD in binary64; model = the same recursion in exact rational arithmetic, followed by the
+    exact truth values of: divisors real > 0, |kappa_j|^2 < 1, sigma real > 0, Yule-Walker residual == 0,
+    sigma == R(0) - sum a_k conj R(k), sigma == c^H T c at the prediction-error filter (all must be 1)"""
+    def f(impl, model):
+        a, b = parse_groups(impl), parse_groups(model)
+        if a is None or b is None:
+            return impl == model
+        if len(b) != 3 or b[2] != '1,1,1,1,1,1':
+            return False
+        ai, si = parse_clist(a[0]), parse_clist(a[1])
+        am = [complex(float(z[0]), float(z[1])) for z in parse_cq(b[0])]
+        sm = [complex(float(z[0]), float(z[1])) for z in parse_cq(b[1])]
+        fl = lambda zs: [t for z in zs for t in (z.real, z.imag)]
+        k = max(1.0, cond * 1e-3)
+        # the coefficients are dimensionless ratios R(k)/R(0): an exactly-zero coefficient is met up to eps*cond
+        return close_vec(fl(ai), fl(am), 1e-9 * k, 1e-9 * k) and close_vec(fl(si), fl(sm), 0.0, 1e-9 * k * scale_r0)
+    return f
+
+
+def exact_gram(data, c, p):
+    """(1/N) sum_t |sum_i c_i x[t-i]|^2 in exact rational arithmetic (binary64 values are rationals)"""
+    N = len(data)
+    fr = lambda z: (Fraction(float(z.real)), Fraction(float(z.imag)))
+    x = [fr(complex(z)) for z in data]
+    cc = [fr(complex(z)) for z in list(c)[:p + 1]]
+    tot = Fraction(0)
+    for t in range(N + p):
+        yr = yi = Fraction(0)
+        for i, (cr, ci) in enumerate(cc):
+            if 0 <= t - i < N and (cr or ci):
+                xr, xi = x[t - i]
+                yr += cr * xr - ci * xi
+                yi += cr * xi + ci * xr
+        tot += yr * yr + yi * yi
+    return tot / N
+
+
 # ------------------------------------------------------------------ the property, judged on the implementation
 def r_of(m):
     """autocorrelation sequence the estimate is about (oracle's own direct computation)"""
@@ -223,7 +329,9 @@ def judge_value(m, impl, clause):
         T = toeplitz_h(r, p)
         y = r[1:p + 1]
         cond = np.linalg.cond(T)
-        scale = np.abs(T).sum(axis=1).max() * max(np.abs(a).max(), 1e-300) + np.abs(y).max()
+        # every lag the code works from carries an absolute rounding error ~ eps*R(0) (FFT autocorrelation), so the
+        # residual is judged relative to R(0) as well (matters when a lag is EXACTLY zero: integer-valued signals)
+        scale = np.abs(T).sum(axis=1).max() * max(np.abs(a).max(), 1e-300) + np.abs(y).max() + abs(r[0])
         if len(a) != p:
             return fail('shape', 'returned %d coefficients for order %d' % (len(a), p))
         if not np.all(np.isfinite(a)):
@@ -259,6 +367,21 @@ def judge_value(m, impl, clause):
                 return fail('recovery', 'exact autocovariance of a stable AR process: coefficients off by %.3g' % np.abs(ta - a).max())
             if abs(s - m['true_sigma']) > 1e-7 * m['true_sigma'] * max(1.0, cond * 1e-2):
                 return fail('recovery-sigma', 'innovation variance %r, true %r' % (s, m['true_sigma']))
+        return None
+    if op in ('gram', 'gramq'):
+        # the Toeplitz matrix the code builds from utils.autocorr is the Gram matrix of the shifted signal:
+        # c^H T c = (1/N) sum_t |(c*x)[t]|^2 (exact, Fractions) -- real, >= 0, > 0 for x != 0 and c != 0
+        v = parse_clist(g[0])
+        data = np.array(parse_clist(m['data']))
+        c = np.array(parse_clist(m['c']))
+        G = exact_gram(data, c, m['order'])
+        tol = 1e-9 * m['scale']
+        if not (G > 0):
+            return fail('oracle-degenerate', 'exact Gram form is not positive for non-zero x and c: %r' % (G,))
+        if abs(v[0].real - float(G)) > tol or abs(v[0].imag) > tol:
+            return fail('psd-identity', 'c^H toeplitz(autocorr(x)[:p+1]) c = %r, exact (1/N) sum |c*x|^2 = %.17g (scale %.3g)' % (v[0], float(G), m['scale']))
+        if float(G) > 10 * tol and not v[0].real > 0:
+            return fail('positive-definite', 'c^H T c = %r is not positive (exact value %.17g)' % (v[0], float(G)))
         return None
     if op == 'autocorr':
         got = np.array(parse_clist(g[0]))
@@ -327,7 +450,7 @@ def sequence_judge(m, clause):
                  (lambda arr, o: (ar.AR_est_LD if first == 'LD' else ar.AR_est_YW)(None, o, rxx=arr))
             if op.endswith('x') or np.linalg.cond(toeplitz_h(data2, p)) < COND_MAX:
                 syms = ar_seq.refill_check(fn, data, data2, [p, max(1, p - 1)])
-    elif op == 'autocorr':
+    elif op in ('autocorr', 'gram', 'gramq'):
         data = cx('data')
         syms = ar_seq.run_schedule({'autocorr': lambda: ut.autocorr(data)}, ['autocorr'] * 3, [data])
         if not syms:
@@ -348,6 +471,9 @@ def sequence_judge(m, clause):
 
 
 def judge(m, impl, clause):
+    if m['op'] == 'ldq':          # same routine, same claims as the computed-autocorrelation LD estimate
+        m = dict(m, op='ldx')
+        impl = ' '.join(impl.split()[:3])
     return judge_value(m, impl, clause) or sequence_judge(m, clause)
 
 
@@ -423,6 +549,93 @@ def cases(rng, tier, seed):
             extra['true_sigma'] = extra['true_sigma'] * scale
         for op in ('ld', 'yw'):
             est_case(op, r, order, cplx, 'est/%s/supplied/%s' % (op.upper(), tag), extra)
+    # --- stability clause: Toeplitz form = Gram form (binary64 and exact), AR_est_LD vs the exact-rational model
+    def filt(kind, p, cplx, x):
+        if kind == 'random':
+            c = nrng.randn(p + 1) + (1j * nrng.randn(p + 1) if cplx else 0)
+        elif kind == 'sparse':
+            c = np.zeros(p + 1, dtype=complex)
+            c[int(nrng.randint(0, p + 1))] = nrng.choice([1.0, -2.0, 0.5])
+            if p >= 2 and nrng.rand() < 0.5:
+                c[int(nrng.randint(0, p + 1))] += (1j if cplx else 1.0)
+            if not np.any(c):
+                c[p] = 1.0
+        elif kind == 'leading-zero':
+            c = nrng.randn(p + 1) + (1j * nrng.randn(p + 1) if cplx else 0)
+            c[:int(nrng.randint(1, p + 1)) if p >= 1 else 0] = 0
+            if not np.any(c):
+                c[p] = 1.0
+        else:   # prediction-error filter of the oracle's own dense Yule-Walker solution: the form is sigma
+            r = direct_autocorr(x, p + 1)
+            a = np.linalg.solve(toeplitz_h(r, p), r[1:p + 1]) if p >= 1 else np.zeros(0)
+            c = np.r_[1.0, -a]
+        return np.asarray(c, dtype=complex)
+
+    FK = ['random', 'sparse', 'leading-zero', 'prediction-error']
+    n_gram = 48 if not big else 600
+    for i in range(n_gram):
+        kind = KINDS[i % 4]
+        N = int(nrng.choice([8, 16, 17, 32, 64] + ([128, 256] if big else [])))
+        x = gen_signal(nrng, N, kind)
+        cplx = 'complex' in kind
+        p = int(nrng.randint(0, min(8, N - 1) + 1))
+        fk = FK[(i // 4) % 4]
+        c = filt(fk, p, cplx, x)
+        if not (np.all(np.isfinite(c)) and np.any(c) and np.any(x)):
+            continue
+        scale = float(np.sum(np.abs(c)) ** 2 * np.sum(np.abs(x) ** 2) / N)
+        m = {'op': 'gram', 'order': p, 'data': clist(x), 'c': clist(c), 'cplx': cplx, 'scale': scale}
+        out.append(mk_case(m, 'gram/float/%s/%s' % (kind, fk), cmp_gram(scale, False)))
+
+    def int_signal(N, cplx, den):
+        hi = int(nrng.choice([1, 3, 8, 100]))
+        xi = nrng.randint(-hi, hi + 1, 2 * N)
+        if not cplx:
+            xi[1::2] = 0
+        if not np.any(xi):
+            xi[0] = 1
+        if nrng.rand() < 0.25:          # leading / trailing zero samples: lowest non-zero index > 0
+            z = int(nrng.randint(1, max(2, N // 3)))
+            xi[:2 * z] = 0
+            if not np.any(xi):
+                xi[-2] = 1
+        x = (xi[0::2] + 1j * xi[1::2]) / float(den)
+        return [int(v) for v in xi], x
+
+    n_gq = 40 if not big else 500
+    for i in range(n_gq):
+        cplx = bool(i % 2)
+        den = int(nrng.choice([1, 2, 16]))
+        N = int(nrng.choice([1, 2, 3, 5, 8, 16, 24] + ([40] if big else [])))
+        xi, x = int_signal(N, cplx, den)
+        p = int(nrng.randint(0, 7)) if i % 5 else int(N + nrng.randint(0, 3))      # every 5th: order >= N
+        ci = nrng.randint(-4, 5, 2 * (p + 1))
+        if not cplx:
+            ci[1::2] = 0
+        if i % 3 == 0 and p >= 1:
+            ci[:2 * int(nrng.randint(1, p + 1))] = 0
+        if not np.any(ci):
+            ci[-2] = 1
+        c = (ci[0::2] + 1j * ci[1::2]) / float(den)
+        scale = float(np.sum(np.abs(c)) ** 2 * np.sum(np.abs(x) ** 2) / N)
+        m = {'op': 'gramq', 'order': p, 'den': den, 'xints': ','.join(map(str, xi)), 'cints': ','.join(str(int(v)) for v in ci),
+             'data': clist(x), 'c': clist(c), 'cplx': cplx, 'scale': scale}
+        out.append(mk_case(m, 'gram/exact/%s/%s' % ('complex' if cplx else 'real', 'order>=N' if p >= N else 'order<N'), cmp_gram(scale, True)))
+
+    n_lq = 40 if not big else 400
+    for i in range(n_lq):
+        cplx = bool(i % 2)
+        den = int(nrng.choice([1, 4]))
+        N = int(nrng.choice([8, 12, 16, 24, 32]))
+        xi, x = int_signal(N, cplx, den)
+        order = int(nrng.randint(1, min(6, N // 4) + 1))
+        m = {'op': 'ldq', 'order': order, 'den': den, 'xints': ','.join(map(str, xi)), 'data': clist(x), 'cplx': cplx, 'psd_valid': True}
+        r = direct_autocorr(x, order + 1)
+        cond = np.linalg.cond(toeplitz_h(r, order))
+        if not cond < COND_MAX:
+            STATS['skipped_ill_conditioned'] += 1
+            continue
+        out.append(mk_case(m, 'est/LD/exact-rational/%s' % ('complex' if cplx else 'real'), cmp_ldq(abs(r[0]), float(cond))))
     # --- AR_psd
     n_psd = 120 if not big else 800
     for i in range(n_psd):
